@@ -93,4 +93,19 @@ theorem open_without_excl_escapes :
   revert this
   decide
 
+/-- `/`, `/R`, `/d` directories and — planted before the run — `/R/a` a symbolic link to `../d` -/
+def fsPlanted : Fs := fun q =>
+  if q = [] ∨ q = [Rn] ∨ q = [[100]] then some ⟨.dir, {}⟩ else if q = [Rn, A] then some ⟨.symlink upD, {}⟩ else none
+/-- an entirely harmless image: directory `a` holding a file `p` -/
+def dirWithFile : TNode := .mk [] .dir [] {} [.mk A .dir [] {} [.mk Pw .reg [7] {} []]]
+/-- **The hypothesis on R cannot be dropped**: with a symbolic link planted in R beforehand, the tolerated `EEXIST` of
+    `mkdir("a")` lets `open("a/p", O_CREAT|O_EXCL)` walk through the link: a file appears in `/d`, outside `/R`.
+    (The property quantifies over images, not over what other parties put into R; `NoLinkBelow` is the exact condition.) -/
+theorem prepopulated_symlink_escapes :
+    outside [Rn] (exec [Rn] fsPlanted (unpackTree id {} dirWithFile).syscalls) ≠ outside [Rn] fsPlanted := by
+  intro h
+  have := congrFun h [[100], Pw]
+  revert this
+  decide
+
 end Sqfs.Witness.C06
